@@ -1,0 +1,206 @@
+//go:build verif
+
+package grammar
+
+import (
+	"fmt"
+	"reflect"
+	"runtime"
+	"unicode"
+)
+
+// This file is only compiled with the `verif` build tag. It exposes
+// read-only views of the parser's internal state to external runtime
+// monitors. It does not modify any existing behaviour.
+
+// VerifParse runs exactly what Parse runs and additionally reports the number
+// of parser steps (expressions) that were executed.
+func VerifParse(b []byte, opts ...Option) (val any, err error, exprCnt uint64) {
+	p := newParser("", b, opts...)
+	defer func() {
+		// parse recovers panics itself when p.recover is set; this is only a
+		// last resort so that the counter is still reported.
+		exprCnt = p.ExprCnt
+	}()
+	val, err = p.parse(g)
+	return val, err, p.ExprCnt
+}
+
+// VerifNode is a neutral, exported copy of one expression node of the live
+// rule table.
+type VerifNode struct {
+	Kind       string
+	Label      string
+	Name       string
+	Val        string
+	Want       string
+	IgnoreCase bool
+	Inverted   bool
+	Chars      []rune
+	Ranges     []rune
+	Classes    []string
+	BasicLatin []int
+	Func       string
+	Labels     []string
+	Kids       []*VerifNode
+}
+
+// VerifRule is a neutral copy of one rule of the live rule table.
+type VerifRule struct {
+	Name        string
+	DisplayName string
+	Expr        *VerifNode
+}
+
+func verifClassName(rt *unicode.RangeTable) string {
+	for _, m := range []map[string]*unicode.RangeTable{unicode.Categories, unicode.Properties, unicode.Scripts} {
+		for name, t := range m {
+			if t == rt {
+				return name
+			}
+		}
+	}
+	return fmt.Sprintf("?%p", rt)
+}
+
+func verifFuncName(f any) string {
+	v := reflect.ValueOf(f)
+	if !v.IsValid() || v.IsNil() {
+		return ""
+	}
+	fn := runtime.FuncForPC(v.Pointer())
+	if fn == nil {
+		return ""
+	}
+	return fn.Name()
+}
+
+func verifNode(e any) *VerifNode {
+	switch e := e.(type) {
+	case *choiceExpr:
+		n := &VerifNode{Kind: "choice"}
+		for _, a := range e.alternatives {
+			n.Kids = append(n.Kids, verifNode(a))
+		}
+		return n
+	case *actionExpr:
+		return &VerifNode{Kind: "action", Func: verifFuncName(e.run), Kids: []*VerifNode{verifNode(e.expr)}}
+	case *seqExpr:
+		n := &VerifNode{Kind: "seq"}
+		for _, a := range e.exprs {
+			n.Kids = append(n.Kids, verifNode(a))
+		}
+		return n
+	case *labeledExpr:
+		return &VerifNode{Kind: "labeled", Label: e.label, Kids: []*VerifNode{verifNode(e.expr)}}
+	case *ruleRefExpr:
+		return &VerifNode{Kind: "ruleref", Name: e.name}
+	case *andCodeExpr:
+		return &VerifNode{Kind: "andcode", Func: verifFuncName(e.run)}
+	case *notCodeExpr:
+		return &VerifNode{Kind: "notcode", Func: verifFuncName(e.run)}
+	case *andExpr:
+		return &VerifNode{Kind: "and", Kids: []*VerifNode{verifNode(e.expr)}}
+	case *notExpr:
+		return &VerifNode{Kind: "not", Kids: []*VerifNode{verifNode(e.expr)}}
+	case *zeroOrOneExpr:
+		return &VerifNode{Kind: "zeroorone", Kids: []*VerifNode{verifNode(e.expr)}}
+	case *zeroOrMoreExpr:
+		return &VerifNode{Kind: "zeroormore", Kids: []*VerifNode{verifNode(e.expr)}}
+	case *oneOrMoreExpr:
+		return &VerifNode{Kind: "oneormore", Kids: []*VerifNode{verifNode(e.expr)}}
+	case *litMatcher:
+		return &VerifNode{Kind: "lit", Val: e.val, Want: e.want, IgnoreCase: e.ignoreCase}
+	case *charClassMatcher:
+		n := &VerifNode{Kind: "class", Val: e.val, IgnoreCase: e.ignoreCase, Inverted: e.inverted,
+			Chars: append([]rune(nil), e.chars...), Ranges: append([]rune(nil), e.ranges...)}
+		for _, c := range e.classes {
+			n.Classes = append(n.Classes, verifClassName(c))
+		}
+		for i, b := range e.basicLatinChars {
+			if b {
+				n.BasicLatin = append(n.BasicLatin, i)
+			}
+		}
+		return n
+	case *anyMatcher:
+		return &VerifNode{Kind: "any"}
+	case *throwExpr:
+		return &VerifNode{Kind: "throw", Label: e.label}
+	case *recoveryExpr:
+		return &VerifNode{Kind: "recovery", Labels: append([]string(nil), e.failureLabel...),
+			Kids: []*VerifNode{verifNode(e.expr), verifNode(e.recoverExpr)}}
+	default:
+		return &VerifNode{Kind: fmt.Sprintf("unknown:%T", e)}
+	}
+}
+
+// VerifTable returns a copy of the live rule table the parser interprets.
+func VerifTable() []VerifRule {
+	out := make([]VerifRule, 0, len(g.rules))
+	for _, r := range g.rules {
+		out = append(out, VerifRule{Name: r.name, DisplayName: r.displayName, Expr: verifNode(r.expr)})
+	}
+	return out
+}
+
+// VerifAction runs one semantic action or code predicate of the live table in
+// isolation: labels are the labelled values in scope, text is the matched
+// text (c.text).
+type VerifAction func(text []byte, labels map[string]any) (any, error)
+
+func verifCollectActions(e any, out map[string]VerifAction) {
+	mk := func(run func(p *parser) (any, error)) VerifAction {
+		return func(text []byte, labels map[string]any) (any, error) {
+			p := newParser("", text)
+			p.vstack = []map[string]any{labels}
+			p.cur.text = text
+			return run(p)
+		}
+	}
+	switch e := e.(type) {
+	case *choiceExpr:
+		for _, a := range e.alternatives {
+			verifCollectActions(a, out)
+		}
+	case *actionExpr:
+		out[verifFuncName(e.run)] = mk(e.run)
+		verifCollectActions(e.expr, out)
+	case *seqExpr:
+		for _, a := range e.exprs {
+			verifCollectActions(a, out)
+		}
+	case *labeledExpr:
+		verifCollectActions(e.expr, out)
+	case *andCodeExpr:
+		run := e.run
+		out[verifFuncName(e.run)] = mk(func(p *parser) (any, error) { return run(p) })
+	case *notCodeExpr:
+		run := e.run
+		out[verifFuncName(e.run)] = mk(func(p *parser) (any, error) { return run(p) })
+	case *andExpr:
+		verifCollectActions(e.expr, out)
+	case *notExpr:
+		verifCollectActions(e.expr, out)
+	case *zeroOrOneExpr:
+		verifCollectActions(e.expr, out)
+	case *zeroOrMoreExpr:
+		verifCollectActions(e.expr, out)
+	case *oneOrMoreExpr:
+		verifCollectActions(e.expr, out)
+	case *recoveryExpr:
+		verifCollectActions(e.expr, out)
+		verifCollectActions(e.recoverExpr, out)
+	}
+}
+
+// VerifActions returns, keyed by the runtime name of the function the table
+// is bound to, a runner for every action and code predicate of the live
+// table.
+func VerifActions() map[string]VerifAction {
+	out := map[string]VerifAction{}
+	for _, r := range g.rules {
+		verifCollectActions(r.expr, out)
+	}
+	return out
+}
